@@ -191,7 +191,8 @@ class Case(object):
         tree, self.sha, _ = intake.load(self.modfile)
         kcls = self.kcls = kcache.make_kcache_class(I)
         ext = I.externals
-        self.uf = ExtV('user_function', m_user_function, UF)
+        self.reentrant = False      # set by obligations_call_reentrant: the user function calls back into the cache
+        self.uf = ExtV('user_function', self._m_user, UF)
         self.keymap = ExtV('keymap', m_keymap, z3.Const('keymap_obj', Val))
         self.rounded_args = ExtV('rounded_args', m_rounded_args, z3.Const('roundargs_obj', Val))
         ext[('klepto.archives', 'cache')] = kcls
@@ -271,6 +272,27 @@ class Case(object):
         for nm in ('info', 'clear', 'load', 'dump', 'archive', 'archived', 'key', 'lookup',
                    '__cache__', '__mask__', '__map__', '__wrapped__'):
             self.ops[nm] = st.fattrs.get((w.cid, nm))
+
+    def _m_user(self, I, st, ca):
+        outs = m_user_function(I, st, ca)
+        if not self.reentrant:
+            return outs
+        # re-entrancy tier: while the user function runs it may call the decorated function again (memoised recursion),
+        # so on return the whole abstract state is *some* state satisfying Inv; by the induction hypothesis on the inner
+        # calls (C05) the cache has not grown past max(maxsize, size at entry of the outer call)
+        res = []
+        for (s, r) in outs:
+            s2, mid = self.havoc(s)
+            pre = I.fn_pre
+            if self.policy not in ('no', 'inf'):
+                s2.assume(mid.mem.size <= z3.If(self.M >= pre.mem.size, self.M, pre.mem.size))
+            elif self.policy == 'no':
+                s2.assume(mid.mem.size <= z3.If(pre.mem.size >= 0, pre.mem.size, 0))
+            s2.assume(mid.A.null == pre.A.null, mid.S.null == pre.S.null)
+            s2.ghost = dict(s2.ghost)
+            s2.ghost['fnpre'] = mid
+            res.append((s2, r))
+        return res
 
     def _m_round(self, kind):
         case = self
@@ -904,6 +926,27 @@ def obligations_rounding(case):
                               [], z3.BoolVal(bool(good)), prop='C12', func=fn, path='deep=%s' % deep,
                               info={'case': case.qual, 'op': 'init'}))
     return obs
+
+
+def obligations_call_reentrant(case):
+    """wrapper(*args, **kwds) when the user function re-enters the cache (e.g. memoised recursion): the clauses that do
+    not compare with the state before the call -- the result equals F(args), Inv is re-established, the size bound,
+    only the listed exceptions escape -- hold for an arbitrary Inv state left behind by the inner calls"""
+    case.reentrant = True
+    try:
+        obs = case.obligations_call()
+    finally:
+        case.reentrant = False
+    keep = []
+    for o in obs:
+        nm = o.name.split('/', 1)[1] if '/' in o.name else o.name
+        if o.prop == 'INV' or nm in ('result.equals_function', 'size.bound', 'raises.only_listed', 'raises.user_exception_propagates',
+                                     'evals.at_most_once', 'evals.original_arguments', 'frame.archive_binding'):
+            o.name = o.name.replace('.wrapper/', '.wrapper[re-entrant]/')
+            o.func = o.func + '[re-entrant]'
+            o.path = 're-entrant/' + (o.path or '')
+            keep.append(o)
+    return keep
 
 
 def obligations_new(case):
